@@ -2,6 +2,7 @@ import Generated.VoigtTable
 import Generated.Constraints
 import Generated.Prefactors
 import Generated.QExprs
+import Generated.LazyDeps
 import Generated.ConfigSchema
 import Generated.DefaultSettings
 import Generated.WriterRules
